@@ -448,13 +448,16 @@ func (e *entryValueMap) tryExpungeLocked() (isExpunged bool) {
 }
 
 func (m *ValueMap) ToJSON() ([]byte, error) {
+	return m.toJSONSeen(map[any]bool{})
+}
+
+func (m *ValueMap) toJSONSeen(seen map[any]bool) ([]byte, error) {
 	var lst [][]byte
 	var err error
-	save := map[*VMValue]bool{}
 	m.Range(func(key string, value *VMValue) bool {
 		var jsonKey []byte
 		var jsonData []byte
-		jsonData, err = value.ToJSONRaw(save)
+		jsonData, err = value.toJSONSeen(seen)
 		if err != nil {
 			return false
 		}
